@@ -924,10 +924,14 @@ def expand_extend(prog, d):
         c = _callee(t)
         if not c.endswith("::extend") or "Extend" not in c:
             continue
+        by_ref = False
         if "VecDeque" in c:
             push = "std::collections::VecDeque::<T, A>::push_back"
         elif "vec::Vec" in c:
             push = "std::vec::Vec::<T, A>::push"
+        elif "string::String" in c and ("Extend<std::string::String>" in c or "Extend<&" in c or "Extend<String>" in c):
+            push = "std::string::String::push_str"          # s.extend(strings) appends every item
+            by_ref = "Extend<std::string::String>" in c or "Extend<String>" in c
         else:
             continue
         it_op = t["args"][1]
@@ -976,8 +980,13 @@ def expand_extend(prog, d):
         cr = new_local("&mut ?")
         blocks[body]["stmts"].append({"place": {"local": cr, "proj": []}, "rv": {"k": "use", "op": {"k": "copy", "place": {"local": coll, "proj": []}}}, "line": line})
         unit = new_local("()")
+        item_op = mv(v)
+        if by_ref:
+            vr = new_local("&std::string::String")
+            blocks[body]["stmts"].append({"place": {"local": vr, "proj": []}, "rv": {"k": "ref", "place": {"local": v, "proj": []}, "mut": False}, "line": line})
+            item_op = mv(vr)
         blocks[body]["term"] = {"k": "call", "callee": {"path": push, "resolved": push, "is_resolved": True, "local": False, "crate": "alloc", "args": []},
-                                "args": [mv(cr), mv(v)], "dest": {"local": unit, "proj": []}, "target": head, "span": span}
+                                "args": [mv(cr), item_op], "dest": {"local": unit, "proj": []}, "target": head, "span": span}
         blocks[exit_b]["stmts"].append({"place": dest, "rv": {"k": "use", "op": {"k": "const", "ty": "()", "dbg": "()"}}, "line": line})
         changed = True
     return changed
@@ -1199,6 +1208,28 @@ def _try_chain_impl(blocks, start, dest_local):
             return chain, cont, brk
         return None
     return None
+
+
+def _fn_item_generics(op):
+    """generic arguments of a fn item constant, from its type `fn(A) -> R {path::<G1, G2>}`"""
+    ty = str(op.get("ty", ""))
+    m = re.search(r"\{.*::<(.*)>\}\s*$", ty)
+    if not m:
+        return []
+    out, depth, cur = [], 0, ""
+    for ch in m.group(1):
+        if ch in "<([":
+            depth += 1
+        elif ch in ">)]":
+            depth -= 1
+        if ch == "," and depth == 0:
+            out.append(cur.strip())
+            cur = ""
+        else:
+            cur += ch
+    if cur.strip():
+        out.append(cur.strip())
+    return out
 
 
 def _follow_value(f, op):
@@ -1568,7 +1599,7 @@ class Inliner:
             d["blocks"] = copy.deepcopy(f.blocks)
             for bi, op in todo:
                 path = op.get("fn_resolved") or op["fn"]
-                d["blocks"][bi]["term"]["callee"] = {"path": op["fn"], "resolved": path, "is_resolved": True, "local": path in self.prog.fns, "crate": "", "args": [], "devirtualised": True}
+                d["blocks"][bi]["term"]["callee"] = {"path": op["fn"], "resolved": path, "is_resolved": True, "local": path in self.prog.fns, "crate": "", "args": _fn_item_generics(op), "devirtualised": True}
             nf = Fn(d, f.crate)
             nf.program = self.prog
             self.prog.fns[p] = nf
